@@ -50,6 +50,8 @@ def run(ctx, rep):
         rep.ob('field-offset', path + ':packed', adt.get('repr_packed') and adt.get('repr_c'), '%s is not #[repr(C, packed)]' % path, sp=adt['sp'])
     fadt_ctor(f, rep)
     generic_address(f, rep)
+    mcfg_entry(f, rep)
+    ctor_fields(f, rep)
     # matrix cells: the index rule is shared with C12 (a value assigned to (i, j) must land at the row-major offset)
     import rules.C12 as C12
     C12.hmat(f, rep); C12.slit(f, rep, with_checksum=False)
@@ -134,6 +136,53 @@ def check_struct(f, rep, ty, ctor, items, source, self_view, table=False):
                 ok = g is not None and g[0] == 'int' and g[2] == s[2] and all(isinstance(a[1], str) and a[1].startswith('self.' + t[1] + '.') for a in atoms(g[1]))
                 rep.ob('setter-placement', '%s.%s@%s' % (ty, t[1], show(p)), ok, 'sub-structure %s of %s must occupy offset %s (%d bytes); found %s' % (t[1], ty, show(p), s[2], show_segs([g]) if g else 'nothing'), sp=sp_)
     return 1
+
+def ctor_fields(f, rep):
+    """constructors of structures whose layout is compared through a symbolic receiver: each field receives the argument
+    (or constant) the specification table names, so that constructor + serialiser together place the caller's values"""
+    for (ty, ctor), fields in sorted(SPEC.CTOR_FIELDS.items()):
+        cb = fns_of(f, ty).get(ctor)
+        subj = '%s::%s' % (ty, ctor)
+        if cb is None: rep.ob('anchor', subj, False, 'constructor not found'); continue
+        I = new_interp(f)
+        args = sym_args(I, cb); P = {n_: a for (n_, _), a in zip(params_of(cb), args)}
+        st = run_fn(I, cb['def'], args); rep.analysed.add(cb['def'])
+        if I.tops or not isinstance(st, StructV): rep.undecided('ctor-fields', subj, I.tops, cb['sp']); continue
+        bad = []
+        for fld, want in fields.items():
+            got = st.fields.get(fld)
+            if isinstance(want, str) and want.startswith('='):
+                w = P.get(want[1:])
+                ok = w is not None and (got is w or (is_term(got) and is_term(w) and equal(strip_trunc(got), w)[0]) or (not is_term(got) and repr(got) == repr(w)))
+            elif want == 'empty':
+                ok = isinstance(got, SeqV) and not got.segs and not got.stores
+            else:
+                ok = is_term(got) and equal(got, C(want))[0]
+            if not ok: bad.append('%s = %s (specified %s)' % (fld, show(got) if is_term(got) else repr(got)[:60], want))
+        rep.ob('ctor-fields', subj, not bad, '%s does not hand its arguments to the fields the layout reads them from: %s' % (subj, '; '.join(bad[:3])), sp=cb['sp'], detail={'fields': len(fields)})
+
+def mcfg_entry(f, rep):
+    """the allocation entry that MCFG::add_ecam builds in place (PCI Firmware spec table 4-3): base address (8), segment
+    group (2), start bus (1), end bus (1), reserved (4, zero)"""
+    fs = fns_of(f, 'mcfg::MCFG')
+    cb = fs.get('add_ecam')
+    if cb is None: rep.ob('anchor', 'mcfg::MCFG::add_ecam', False, 'not found'); return
+    I = new_interp(f)
+    sv = I.sym_value('mcfg::MCFG', 'self')
+    args = [I.sym_value(norm_ty(t_), n_) for n_, t_ in params_of(cb)[1:]]
+    run_fn(I, cb['def'], [RefV(Cell(sv), True)] + args); rep.analysed.add(cb['def'])
+    vec = sv.fields.get('entries')
+    if I.tops or not isinstance(vec, SeqV) or not vec.segs or vec.segs[-1][0] != 'elem':
+        rep.undecided('layout', 'mcfg::MCFG::add_ecam', I.tops or [('the entry vector does not end with the new entry', cb['sp'])], cb['sp']); return
+    ent = vec.segs[-1][1]
+    ety = ent.ty if isinstance(ent, StructV) else None
+    segs = emit_value(I, ent, ety) if ety and f.method('Aml', ety, 'to_aml_bytes') else None
+    if segs is None or I.tops: rep.undecided('layout', 'mcfg::MCFG::add_ecam', I.tops or [('entry is not serialisable', cb['sp'])], cb['sp']); return
+    P = {n_: a for (n_, _), a in zip(params_of(cb)[1:], args)}
+    want = [('int', P['base_addr'], 8), ('int', P['segment'], 2), ('int', P['start_bus'], 1), ('int', P['end_bus'], 1), ('int', ZERO, 4)]
+    ok, why = segs_equal(segs, want, [c for c, _ in I.st.facts])
+    rep.ob('layout', 'mcfg::MCFG::add_ecam:entry', ok, 'the allocation entry is emitted as %s; specified base(8) segment(2) start bus(1) end bus(1) reserved(4)=0: %s' % (show_segs(segs), why), sp=cb['sp'],
+           detail={'emitted': show_segs(segs)})
 
 def generic_address(f, rep):
     """sdt::GenericAddress (the raw-bytes GAS used with Sdt::append): ACPI 6.4 table 5.1 for every access width"""
